@@ -499,31 +499,21 @@ class CCA(CCABaseModel):
     def _apply_cov(
         self, x, dims_in=["sample", "feature"], dims_out=["feature1", "feature2"]
     ):
-        if x[dims_in[1]].size == 1:
-            return xr.apply_ufunc(
-                np.cov,
-                x,
-                input_core_dims=[dims_in],
-                output_core_dims=[[]],
-                kwargs={"rowvar": False},
-                vectorize=False,
-                dask="allowed",
-            )
-        else:
-            C = xr.apply_ufunc(
-                np.cov,
-                x,
-                input_core_dims=[dims_in],
-                output_core_dims=[dims_out],
-                kwargs={"rowvar": False},
-                vectorize=False,
-                dask="allowed",
-            )
-            feature_coords = x.coords[dims_in[1]].values
-            C = C.assign_coords(
-                {dims_out[0]: feature_coords, dims_out[1]: feature_coords}
-            )
-            return C
+        def _cov(a):
+            # np.cov returns a 0-d array for a single feature
+            return np.atleast_2d(np.cov(a, rowvar=False))
+
+        C = xr.apply_ufunc(
+            _cov,
+            x,
+            input_core_dims=[dims_in],
+            output_core_dims=[dims_out],
+            vectorize=False,
+            dask="allowed",
+        )
+        feature_coords = x.coords[dims_in[1]].values
+        C = C.assign_coords({dims_out[0]: feature_coords, dims_out[1]: feature_coords})
+        return C
 
     def _block_diag_dask(self, views, dims_in=["feature1", "featur2"], dims_out=None):
         if dims_out is None:
